@@ -153,3 +153,22 @@ contract(L + 'LogicalLinkController.close', 'C17',
                                 'self.sap[old(socket.addr)].sock_list[0] is not socket'),
                   ('post.frame', 'unchanged_except(self.sap, old(self.sap), -1)')],
          raises={})
+
+# service discovery responder: a lookup request is answered from the table of bound service names alone - the
+# address the name is bound to, or 0 when no socket is bound under it (well-known or not)
+SNLP = 'nfc.llcp.pdu:ServiceNameLookup'
+for _known in (True, False):
+    contract(L + 'ServiceDiscovery.enqueue', 'C17',
+             dict(self=Obj(L + 'ServiceDiscovery', _partial=False,
+                           llc=Obj(L + 'LogicalLinkController', lock=Lock(),
+                                   snl=DictOf({b'urn:nfc:sn:sdp': 1, b'urn:nfc:sn:other': Int(2, 63)}
+                                              if not _known else
+                                              {b'urn:nfc:sn:sdp': 1, b'urn:nfc:sn:snep': Int(2, 63)})),
+                           snl=DictOf({}), sent=DictOf({}), tids=Fixed([]), sdreq=Fixed([], 'deque'),
+                           sdres=Fixed([], 'deque'), lock=Lock(), resp=Cond('lock'), mode=0),
+                  rcvd_pdu=Obj(SNLP, _partial=False, ptype=9, dsap=1, ssap=1, sdres=Fixed([]),
+                               sdreq=Fixed([Tup(Byte(), Const(b'urn:nfc:sn:snep'))]))),
+             name='C17/sdp.responder[%s]' % ('bound' if _known else 'unbound'),
+             ensures=[('post.answer', 'len(self.sdres) == 1 and self.sdres[0][0] == rcvd_pdu.sdreq[0][0] and '
+                                      'self.sdres[0][1] == (self.llc.snl[b"urn:nfc:sn:snep"] if %s else 0)' % _known)],
+             raises={})
